@@ -30,9 +30,9 @@ Not generated (rule 2: ambiguous, or specific to the assembler):
   * Bcc.L / FBcc.L (see above), Bcc/FBcc/TRAPcc/FTRAPcc without size where the assembler chooses
   * bit field width 0 (AS takes it as 32), negative offsets
   * MULx.L / DIVx.L register pairs naming the same register twice (undefined result, PRM)
-  * the k-factor of FMOVE.P FPn,<ea>: AS wants it behind the attribute (FMOVE.P{#k}), which is not
-    Motorola's operand syntax; the forms are generated with in-range factors only (AS wraps +64 / -65
-    around silently); FMOVE.P without k-factor is not generated (AS supplies {#17})
+  * the k-factor of FMOVE.P FPn,<ea> is written the way AS wants it, behind the attribute
+    (FMOVE.P{#k} FPn,<ea>; Motorola: FMOVE.P FPn,<ea>{#k}); 7-bit two's complement, -65 / +64 must be
+    rejected; FMOVE.P without k-factor is not generated (AS supplies {#17})
   * floating point literals (#imm only with the integer formats .B .W .L)
   * FMOVECR offsets 64..127: the field has 7 bits, the coprocessor's ROM 64 entries; AS documents
     (error 1700) the range 0..63, so >= 128 must be rejected and 64..127 are left out
@@ -583,6 +583,8 @@ def build(cpu):
         form(mn, [A_PRE, A_PRE, Imm("W")], (lambda op: lambda x, y, i: op | y << 9 | 8 | x)(op))
     form("LINK.L", [A, Imm("L", S32LO, S32HI, rej_lo=False, rej_hi=False)], lambda r, i: 0x4808 | r)
     # ---- Bcc BRA BSR with 32-bit displacement  0110 cccc 1111 1111
+    # KNOWN: Motorola's spelling Bcc.L / FBcc.L gives the 16-bit form in AS (proposed/C14/68020-bcc-l-is-word-form.md);
+    # AS's own attribute .X is used for the 32-bit displacement, .L is not generated
     for mn, c in [("BRA", 0), ("BSR", 1)] + [("B" + k, v) for k, v in CC.items() if v > 1]:
         form(mn + ".X", [BranchX()], (lambda c: lambda d: 0x60FF | c << 8)(c))
     # ---- TRAPcc  0101 cccc 1111 1ooo  (010 word, 011 long, 100 no operand)
@@ -697,7 +699,8 @@ def build(cpu):
                  nfix=2)
     for m in thin(fdst("P")) + newmodes(1):
         # packed decimal with static k-factor (format 011, 7-bit two's complement) and dynamic k-factor (format 111)
-        form("FMOVE.P", [Quick(-64, 63, rej_lo=False, rej_hi=False), FP, ea(m, "L")],
+        # 192..255 are read by AS as -64..-1 (8-bit immediate convention) and left out
+        form("FMOVE.P", [Quick(-64, 63, holes=range(192, 256)), FP, ea(m, "L")],
              lambda k, s, a: [0xF200 | ea6(a), 0x6C00 | s << 7 | k & 0x7f], nfix=2, tmpl="FMOVE.P{{%s}} %s,%s")
         dk = Reg("Dk", DN)
         form("FMOVE.P", [dk, FP, ea(m, "L")], lambda k, s, a: [0xF200 | ea6(a), 0x7C00 | s << 7 | k << 4], nfix=2,
